@@ -2,6 +2,7 @@ package sim
 
 import (
 	"bytes"
+	"crypto/sha256"
 	"encoding/json"
 	"fmt"
 	"reflect"
@@ -44,6 +45,11 @@ func dbData(i int) []byte {
 		return b
 	}
 	p := Pool()
+	if i >= 100 {
+		// the long-history universe: as many distinct 32-byte values as wanted
+		h := sha256.Sum256([]byte(fmt.Sprint("dbhist value ", i)))
+		return h[:]
+	}
 	switch i {
 	case 0, 1, 2, 3:
 		return mk(32, byte(0x10+i))
@@ -207,7 +213,7 @@ func (e *dbhistEngine) Gen(seed uint64, tier string, run int) *Trace {
 				op.Lists = append(op.Lists, genListSpec(r, types, nown, false))
 			}
 		case "Restart":
-			op.D = r.Intn(2)
+			op.D = r.Intn(3)
 		case "Swap":
 			op.D = r.Intn(4)
 		default:
@@ -215,6 +221,44 @@ func (e *dbhistEngine) Gen(seed uint64, tier string, run int) *Trace {
 			op.O = r.Intn(nown)
 		}
 		ops = append(ops, op)
+	}
+	if r.Chance(1, 15) {
+		// a long history on one list: it grows to 10-40 entries and is then taken apart from the front, the middle and the
+		// back, with queries in between (implementations that reorganise their storage at some size show here)
+		ops = nil
+		n := r.Range(10, 40)
+		var present []int
+		for k := 0; k < n; k++ {
+			ops = append(ops, dbOp{Op: "Append", T: 0, O: k % nown, D: 100 + k})
+			present = append(present, k)
+		}
+		for len(present) > 0 && len(ops) < 120 {
+			j := 0
+			switch r.Intn(4) {
+			case 0:
+				j = len(present) - 1
+			case 1:
+				j = r.Intn(len(present))
+			}
+			k := present[j]
+			present = append(present[:j], present[j+1:]...)
+			ops = append(ops, dbOp{Op: Pick(r, []string{"Remove", "RemoveSignature"}), T: 0, O: k % nown, D: 100 + k})
+			if r.Chance(1, 3) && len(present) > 0 {
+				q := Pick(r, present)
+				ops = append(ops, dbOp{Op: Pick(r, []string{"BytesExists", "SigDataExists"}), T: 0, O: q % nown, D: 100 + q})
+			}
+			if r.Chance(1, 10) {
+				ops = append(ops, dbOp{Op: "Restart", D: r.Intn(3)})
+			}
+			if r.Chance(1, 8) {
+				ops = append(ops, dbOp{Op: "Append", T: 0, O: k % nown, D: 100 + k}) // and back in
+				present = append(present, k)
+			}
+			if r.Chance(1, 12) {
+				break
+			}
+		}
+		c.Start, c.Gen = "", nil
 	}
 	if r.Chance(1, 12) {
 		// two databases from the start: the second one is merged into the (possibly still empty) first, and the history goes on on both
@@ -906,10 +950,22 @@ func (e *dbhistEngine) Exec(tr *Trace, x *X) {
 				backing := cbuf.Bytes()
 				var got signature.SignatureDatabase
 				var err error
-				if op.D%2 == 0 {
+				switch op.D % 3 {
+				case 0:
 					got, err = signature.ReadSignatureDatabase(cbuf)
-				} else {
+				case 1:
 					err = got.Unmarshal(cbuf)
+				default:
+					// decode into the live database itself (reloading a variable into the object one already has). Only when
+					// the decoder is known to accept the stream: a failed decode into a live object is outside the statement.
+					if _, e2 := signature.ReadSignatureDatabase(bytes.NewReader(enc)); e2 != nil {
+						got, err = signature.SignatureDatabase{}, e2
+					} else {
+						live := *db
+						err = live.Unmarshal(cbuf)
+						got = live
+						x.Probe("restart_into_live_database")
+					}
 				}
 				for k := range backing {
 					backing[k] = 0xEE
